@@ -148,3 +148,22 @@ Lemma nlr_no_panic_top : forall g T partial w c s stk a real act n,
   c_stk c = s :: stk -> next_tok T partial s (c_inp c) = Tok a real ->
   In act (cell T s a) -> act_step g T c a real act <> Done (Panic n).
 Proof. intros g T partial w c s stk a real act n Hwf Hs. exact (nlr_no_panic_main g T Hs partial w c s stk a real act n). Qed.
+
+(* meaning of rn_complete_b: every item with a nullable remainder reduces, with the length of
+   what is before the dot, on each of its lookaheads *)
+Lemma rn_complete_meaning : forall g T s st it a,
+  rn_complete_b g T = true -> get_state T s = Some st -> In it (s_items st) ->
+  is_aug_prod g (i_prod it) = false ->
+  (forall X, In X (skipn (i_pos it) (rhs g (i_prod it))) -> In X (eps_ok_syms g)) ->
+  In a (i_follow it) ->
+  In (Reduce (i_prod it) (i_pos it)) (cell T s a).
+Proof.
+  intros g T s st it a H Hs Hit Haug Hnull Ha.
+  unfold rn_complete_b in H. cbv zeta in H. rewrite forallb_forall in H.
+  specialize (H st (nth_error_In _ _ Hs)). unfold rn_complete_state_b in H.
+  rewrite forallb_forall in H. specialize (H it Hit). cbv zeta in H. rewrite Haug in H.
+  assert (Hall : forallb (fun X => memb X (eps_ok_syms g)) (skipn (i_pos it) (rhs g (i_prod it))) = true).
+  { apply forallb_forall. intros X HX. apply memb_In. apply Hnull. exact HX. }
+  rewrite Hall in H. rewrite forallb_forall in H. specialize (H a Ha).
+  apply has_action_In in H. unfold cell. rewrite Hs. exact H.
+Qed.
